@@ -89,6 +89,21 @@ theorem stats_sum (ref hyp : List α) :
   rw [editStats_sum al hw, hc]
   exact dist_symm unit rfl hyp ref
 
+/-- The line-end classification of a line's error summary is always produced (the `AssertionError`s of
+`get_match_type` and `BoundaryErrorsSummary` are unreachable from `from_lists`) and sets exactly one of the six flags:
+the alignment is optimal, and an optimal alignment never ends in a run of errors that holds an insertion and a deletion
+together (they would be cheaper as one substitution). -/
+theorem ending_total (ref hyp : List α) :
+    ∃ c, Summary.ending ref hyp = some c ∧ c ≠ .nothing := by
+  obtain ⟨al, hal, hw, hs, ht, hc⟩ := alignment_ok unit hyp ref
+  obtain ⟨h1, h2⟩ := optimal_suffix_no_ins_del hyp ref al hw hs ht hc
+  obtain ⟨c, hc1, hc2⟩ := boundaryClass_ok _ h2 h1
+  exact ⟨c, by simp only [Summary.ending, hal, matchTypes_wf al hw, hc1], hc2⟩
+
+/-! Non-vacuity: a trailing deletion after a substitution (mixed), a clean end, trailing insertions. -/
+example : Summary.ending [1, 2, 3, 4] [1, 2, 5] = some .mixedDel ∧ Summary.ending [1, 2] [1, 2] = some .correct ∧
+    Summary.ending [1] [1, 7, 7] = some .pureIns := by decide
+
 /-- Aggregation is plain (field-wise) addition. -/
 theorem aggregate_append (xs ys : List Summary) :
     Summary.aggregate (xs ++ ys) = (Summary.aggregate xs).add (Summary.aggregate ys) :=
